@@ -195,7 +195,10 @@ theorem builder_clone_panic_ledger (fresh : Nat → α → α) (cl : Nat → α 
 /-- every history from `ArrayBuilder::new()`: at the end the builder owns exactly the accepted values
     `acc` (of the bounded-vector reference); `build` hands out exactly `acc` (iff full) or panics and
     drops exactly `acc`; `Drop` drops exactly `acc` — each owned element exactly once, in push order;
-    the clone steps drop exactly the owned elements (resp. exactly the clones) -/
+    the clone steps drop exactly the owned elements (resp. exactly the clones); a `clone_from` step
+    between two builders (`Op.cloneFrom` / `Op.cloneInto`, observation `clonedFrom`) drops exactly the OLD
+    elements of the target and afterwards exactly the source's (reference: `a = b.clone()`), and the
+    builder continued with owns exactly the fresh clones of the source -/
 theorem builder_ledger (fresh : Nat → α → α) (n : Nat) (ops : List (ArrayBuilder.Op α)) :
     let r := ArrayBuilder.run fresh (ArrayBuilder.new n, 0) ops
     let acc := (bvRun fresh n ([], 0) ops).1.1
